@@ -48,7 +48,7 @@ PickA2 ==
 (* family B: types that carry their length *)
 Tail8 == Const("tail", -1, -1, U8, IntV(171))
 PickB ==
-    \/ \E b \in {"bytes", "ascii", "utf8", "ucs2"}, m \in {<<0, -1>>, <<2, 4>>, <<0, 2>>}, t \in {"ZERO", "HEX-FF", "END-OF-PDU"},
+    \/ \E b \in {"bytes", "ascii", "utf8", "ucs2"}, m \in {<<0, -1>>, <<2, 4>>, <<0, 2>>, <<2, 2>>}, t \in {"ZERO", "HEX-FF", "END-OF-PDU"},
           f \in {<<>>, <<Tail8>>} :
            Pick(D(<<SID, Value("p1", -1, -1, Simple(MinMax(b, m[1], m[2], t)))>> \o f))
     \/ \E b \in {"bytes", "ascii", "utf8", "ucs2"}, n \in {8, 16}, h \in BOOLEAN, f \in {<<>>, <<Tail8>>} :
